@@ -284,7 +284,7 @@ func (f *Frame) frameObligations(kind, reach string, before, after *State, items
 		if a == b {
 			continue
 		}
-		if strings.HasPrefix(k, "G!alloc") || k == "G!held" {
+		if strings.HasPrefix(k, "G!alloc") || k == "G!held" || k == "G!released" {
 			continue
 		}
 		e.nf++
@@ -375,7 +375,11 @@ func (f *Frame) execCall(in ssa.Instruction, c *ssa.CallCommon, reach string, st
 		for _, a := range c.Args {
 			args = append(args, f.val(a))
 		}
-		return f.execBuiltin(b.Name(), c, args, reach, st, in), reach
+		pt := f.callOrd[in]
+		f.pointClauses("before", pt, reach, st, args, nil)
+		r := f.execBuiltin(b.Name(), c, args, reach, st, in)
+		f.pointClauses("after", pt, reach, st, args, &r)
+		return r, reach
 	}
 	key := f.calleeKey(c)
 	var args []Val
@@ -429,6 +433,8 @@ func (f *Frame) dispatchCall(key string, c *ssa.CallCommon, fnv Val, args []Val,
 	var res Val
 	nreach := reach
 	switch {
+	case fc != nil && !fc.Inline && len(fc.Dispatch) > 0 && c.IsInvoke():
+		res = f.dispatchIface(fc, key, sig, args, reach, st, point)
 	case fc != nil && !fc.Inline:
 		res = f.applyContract(fc, key, callee, sig, c.IsInvoke(), args, reach, st, point)
 	case callee != nil && len(callee.Blocks) > 0 && (callee.Pkg == e.pkg || fnv.Clos != nil) && f.depthOK(callee):
@@ -446,6 +452,13 @@ func (f *Frame) dispatchCall(key string, c *ssa.CallCommon, fnv Val, args []Val,
 		e.assume("true", inv)
 	}
 	res.T = resT
+	if f.fc != nil {
+		for name, pt := range f.fc.Binds {
+			if pt == point {
+				f.lets[name] = res
+			}
+		}
+	}
 	f.pointClauses("after", point, nreach, st, args, &res)
 	return res, nreach
 }
@@ -493,6 +506,30 @@ func (f *Frame) applyContract(fc *FuncContract, key string, callee *ssa.Function
 			continue
 		}
 		f.prove(point+"#pre", c.Label, reach, fm, nil, nil, "")
+	}
+	// released buffers (C20): slice arguments must be live; `releases` marks regions
+	if f.liveChecks() {
+		for i, a := range args {
+			if _, ok := a.T.Underlying().(*types.Slice); ok && i < len(ps) {
+				f.liveObl(reach, st, a.C[0], "arg:"+ps[i])
+			}
+		}
+	}
+	for _, rx := range fc.Releases {
+		func() {
+			defer func() {
+				if r := recover(); r != nil {
+					if ee, ok := r.(evalError); ok {
+						e.fail(f, fmt.Errorf("releases: %s", ee.msg))
+						return
+					}
+					panic(r)
+				}
+			}()
+			v := env.eval(rx)
+			h := e.heap("G!released", "Bool", false)
+			e.setHeap(st, h, sx("store", e.heapTerm(st, h), v.C[0], ite(and(reach, not(eq(v.C[0], "0"))), "true", sx("select", e.heapTerm(st, h), v.C[0]))))
+		}()
 	}
 	// 2. havoc
 	if !fc.Pure {
@@ -949,8 +986,17 @@ func (f *Frame) execBuiltin(name string, c *ssa.CallCommon, args []Val, reach st
 			return Val{T: it, C: []string{l}}
 		}
 	case "append":
+		if f.liveChecks() {
+			f.liveObl(reach, st, args[0].C[0], "append")
+		}
 		return f.doAppend(args[0], args[1], reach, st)
 	case "copy":
+		if f.liveChecks() {
+			f.liveObl(reach, st, args[0].C[0], "copy-dst")
+			if _, ok := args[1].T.Underlying().(*types.Slice); ok {
+				f.liveObl(reach, st, args[1].C[0], "copy-src")
+			}
+		}
 		return f.doCopy(args[0], args[1], reach, st)
 	case "delete":
 		m := args[0]
@@ -1088,4 +1134,73 @@ func (f *Frame) fieldOwner(v ssa.Value) (Val, bool) {
 		}
 	}
 	return Val{}, false
+}
+
+// dispatchIface: a call through an interface whose contract names concrete
+// implementations.  For each listed method (*T).m the case "dynamic type is T"
+// uses that method's own contract with the unboxed receiver; the remaining
+// case uses the interface-level contract.
+func (f *Frame) dispatchIface(fc *FuncContract, key string, sig *types.Signature, args []Val, reach string, st *State, point string) Val {
+	e := f.e
+	id := args[0].C[0]
+	type branch struct {
+		cond string
+		st   *State
+		res  Val
+	}
+	var brs []branch
+	var conds []string
+	for _, impl := range fc.Dispatch {
+		ifc := e.db.Funcs[impl]
+		if ifc == nil {
+			e.fail(f, fmt.Errorf("dispatch: no contract for %s", impl))
+			continue
+		}
+		w := &World{prog: e.prog, pkg: e.pkg, db: e.db}
+		fn := w.lookupFunc(impl)
+		if fn == nil {
+			e.fail(f, fmt.Errorf("dispatch: %s not found", impl))
+			continue
+		}
+		rt := fn.Signature.Recv().Type()
+		cond := and(not(eq(id, "0")), eq(e.itype(id), fmt.Sprint(e.typeTag(rt))))
+		recv := e.ifacePayload(id, rt)
+		bst := st.clone()
+		bargs := append([]Val{recv}, args[1:]...)
+		r := f.applyContract(ifc, impl, fn, fn.Signature, false, bargs, and(reach, cond), bst, point)
+		brs = append(brs, branch{and(reach, cond), bst, r})
+		conds = append(conds, cond)
+	}
+	other := and(reach, not(or(conds...)))
+	ost := st.clone()
+	or_ := f.applyContract(fc, key, nil, sig, true, args, other, ost, point)
+	brs = append(brs, branch{other, ost, or_})
+	var es []edge
+	var vals []Val
+	for _, b := range brs {
+		es = append(es, edge{nil, b.cond, b.st})
+		vals = append(vals, b.res)
+	}
+	m := f.mergeStates(es)
+	*st = *m
+	return f.mergeVals(sig.Results(), vals, es, "dispatch")
+}
+
+// liveChecks: use-after-release obligations are generated for functions tagged C20.
+func (f *Frame) liveChecks() bool {
+	top := f
+	for top.parent != nil {
+		top = top.parent
+	}
+	return top.fc != nil && top.fc.hasTag("C20")
+}
+
+func (f *Frame) liveObl(reach string, st *State, reg, what string) {
+	e := f.e
+	if reg == "0" {
+		return // nil slice
+	}
+	h := e.heap("G!released", "Bool", false)
+	f.addObl("live", "C20.live", reach, not(sx("select", e.heapTerm(st, h), reg)), nil, nil, "")
+	_ = what
 }
